@@ -87,6 +87,9 @@ def sweep(world, rep, ts):
                         kept = set(got)
                         if any(v > 1 for v in c.values()) or not kept <= set(exp_all):
                             raise V('interactions', name, t, got, {'may': exp_all}, {'nbunch': repr(nb)})
+                        if kept == set(exp_all):
+                            n_eval += 1
+                            continue            # complete and duplicate-free: the correct answer
                         import networkx as _nx
                         cons = _nx.DiGraph()
                         queried = set(nodes) if nb is None else set(nb)
